@@ -6,6 +6,8 @@ ENGINES = [
     {'name': 'core', 'path': 'sa/core', 'serves_properties': [], 'kind_free_text': 'ast loader, import/call resolution, statement CFG with dominators, report/evidence'},
     {'name': 'callgraph', 'path': 'sa/engines/callgraph.py', 'serves_properties': ['C05', 'C13'], 'kind_free_text': 'whole-package call graph over resolved callees'},
     {'name': 'swapkernel', 'path': 'sa/engines/swapkernel.py', 'serves_properties': ['C01', 'C06', 'C11'], 'kind_free_text': 'finite-state abstract interpretation of rewiring attempts'},
+    {'name': 'labels', 'path': 'sa/engines/labels.py', 'serves_properties': ['C14', 'C02'], 'kind_free_text': 'label typestate / taint dataflow'},
+    {'name': 'accforms', 'path': 'sa/engines/accforms.py', 'serves_properties': ['C07', 'C02'], 'kind_free_text': 'accumulator form inference for greedy modularity optimisers'},
     {'name': 'alias', 'path': 'sa/engines/alias.py', 'serves_properties': ['C13', 'C17', 'C01'], 'kind_free_text': 'may-alias/may-mutate abstract interpretation with interprocedural summaries'},
     {'name': 'pattern+canon', 'path': 'sa/core/pattern.py', 'serves_properties': ['C17'], 'kind_free_text': 'AST templates with metavariables; sympy normal forms (term rewriting, no evaluation)'},
     {'name': 'selftest', 'path': 'sa/selftest.py', 'serves_properties': [], 'kind_free_text': 'thorough tier: breaking and neutral source variants in a temp copy; blind/noisy rule => exit 2'},
@@ -15,6 +17,37 @@ PENDING = 'check not built yet in this session; see DESIGN.md section 5 for the 
 NOT_APPLICABLE = {('C%02d' % i): PENDING for i in range(1, 21)}
 
 CHECKS = {
+    'C02': {
+        'engine': 'labels + obligations',
+        'technique': 'label typestate dataflow (RAW/CANON/CANON+1/GAPPY) over the CFG; must-pass-through of q recomputation after label writes; AST templates for the modularity formulas incl. gamma factor of every null term; level-loop rebinding',
+        'text': 'All ten detectors: returned labels have typestate canonical+1 at every return (valid 1..k partition for every input and seed); every '
+                'label write is followed on all paths by a recomputation of the returned q, whose aggregate is built from the canonical labels of the '
+                'same level; q has the definitional form with gamma on every degree-product term and out x in orientation; hierarchical outputs use '
+                'one index for labels and q; each level continues on the aggregated matrix.',
+        'note': 'Does not decide floating-point accuracy of q, nor that NumPy mask sums pool the right cells beyond the mask expressions being the '
+                'canonical label tests. modularity_louvain_dir never hands W1 to the next level: KNOWN-FINDING (repair blocked by pinned tests).',
+    },
+    'C07': {
+        'engine': 'accforms',
+        'technique': 'accumulator-form inference (init form vs update-implied form, orientation-aware), paired-update / guard dominance obligations, sympy normal form of the gain halves',
+        'text': 'Premises of the monotonicity argument for the 7 greedy optimisers, for every input, start partition and visiting order: accumulators '
+                'keep the sums their initialisation defines (forms agree, orientation checked for _dir), updates are paired with identical operands '
+                'inside the single block guarded by gain > eps > 0 together with the label store, the current module is excluded before max/argmax, '
+                'gain halves have the canonical Delta-Q shape with crossed in/out degrees, levels are accepted only while q rises, the objective of '
+                'community_louvain is symmetric before moves.',
+        'note': 'Floating-point cancellation near eps and termination are not decided. Undirected routines are compared modulo transposition '
+                '(symmetric input assumed). modularity_louvain_dir orientation errors: KNOWN-FINDING (repair blocked by pinned tests).',
+    },
+    'C14': {
+        'engine': 'labels',
+        'technique': 'label taint dataflow with an explicit list of label-safe uses; sympy check of the VI/MI formulas and their x<->y symmetry; index-kind rule',
+        'text': 'For the 18 partition parameters in scope: a raw label value can reach only label-safe operations before np.unique(..., return_inverse=True); '
+                'everything label-dependent runs on canonical labels, which are a function of the partition alone, hence invariance under every injective '
+                'relabelling. partition_distance: injective pairing of canonical labels, entropies on per-label histograms, VIn/MIn of the documented '
+                'form and symmetric. ci2ls/ls2ci structure.',
+        'note': 'Values of VI/MI and the [0,1] range are not decided. Two index-kind defects in gateway_coef_sign are KNOWN-FINDINGs (repair changes '
+                'values pinned by test_gateway_coef).',
+    },
     'C01': {
         'engine': 'swapkernel',
         'technique': 'typestate abstract interpretation of one rewiring attempt (symbolic cells / edge-list slots / inequality facts) on every path; def-use and dominance obligations',
